@@ -478,6 +478,21 @@ static void await(struct Batch *b)
 	char last[MAXN + 2] = "", cur[MAXN + 2];
 	if (b->done_seen) return;
 	if (b->mode == 'W') { b->done_seen = 1; return; }
+#ifdef C20_TSAN
+	/* libtsan defers asynchronous signals and (gcc 12) occasionally never runs the handler:
+	 * under TSan the signal is still sent by netdb.c and logged (`kill`), but completion is
+	 * detected by polling and the handler event is optional ("mode tsan" in the trace). */
+	if (b->sev == 'S') {
+		while (!timed_out) {
+			if (sem_trywait(&b->sem) == 0) { b->done_seen = 1; return; }
+			snap_of(b, cur);
+			if (!strchr(cur, 'P') && !strchr(cur, 'N')) { b->done_seen = 1; return; }
+			if (now_s() > deadline) { ST(timed_out_, 1); return; }
+			usleep(rnd() % 60);
+		}
+		return;
+	}
+#endif
 	if (b->sev == 'T' || b->sev == 'S') {
 		if (sem_wait_deadline(&b->sem)) b->done_seen = 1;
 		return;
@@ -628,6 +643,9 @@ NOTSAN static void print_trace(void)
 {
 	int i, n = LD(nev) < MAXEV ? LD(nev) : MAXEV;
 	char wb[8];
+#ifdef C20_TSAN
+	printf("mode tsan\n");
+#endif
 	for (i = 0; i < NHOST; i++)
 		printf("oracle %d %d\n", i, oracle_rc[i]);
 	for (i = 0; i < n; i++) {
